@@ -432,6 +432,9 @@ func runC09(c *Ctx) {
 		if o.welcome == nil {
 			if !o.adversary && o.knows && o.intime && configured(o.method) && o.sess.Abort != nil {
 				c.Probe("honest_rejected")
+				if debugC09 {
+					c.Violf("DEBUG honest rejected: %s %s %s abort=%s", o.who, o.user, o.method, Brief(o.sess.Abort))
+				}
 			}
 			continue
 		}
